@@ -339,17 +339,17 @@ func (rec *c15Rec) coqIssue() string {
 // ---------- collected output ----------
 
 type c15Out struct {
-	m        *meta
-	impl     []interface{}
-	seq      []string
-	conc     []string
-	bulk     []string
-	cycle    []string
-	kinds    map[string]int
-	starts   map[string]int
-	nontriv  map[string]bool
-	requests int
-	skipped  int
+	m                  *meta
+	impl               []interface{}
+	seq                []string
+	conc               []string
+	bulk               []string
+	cycle              []string
+	kinds              map[string]int
+	starts             map[string]int
+	nontriv            map[string]bool
+	requests           int
+	skipped            int
 	contended, dropped int
 }
 
@@ -736,11 +736,15 @@ func c15CoqRuns(runs [][2]int) string {
 
 // c15RunBulk: g goroutines are released by one barrier and issue per requests each.
 // mode 1: QoS 1, one request each, all outstanding together (acknowledgements withheld until all
-//         are on the wire);
+//
+//	are on the wire);
+//
 // mode 0: QoS 0 on the connected client, publishes return at once, identifiers read from Message.ID;
 // mode 2: QoS 0 on a client that was never connected: Publish takes an identifier and then fails
-//         with ErrNotConnected without touching the transport — the counter is the only shared thing,
-//         so the goroutines really contend on it.
+//
+//	with ErrNotConnected without touching the transport — the counter is the only shared thing,
+//	so the goroutines really contend on it.
+//
 // Every goroutine also bumps a deliberately NON-atomic control counter (load, then store) right
 // before its first call: a lost update there proves that the goroutines of this burst did overlap
 // (contended); a burst without such proof says little about atomicity and may be repeated by the
@@ -912,7 +916,7 @@ func c15RunBulk(o *c15Out, s uint32, g, per int, mode int) (*c15BulkRes, error) 
 	}
 	res.coq = cTuple(cN(uint64(s)), cN(uint64(n)), cBool(mode == 1), c15CoqRuns(runs), cN(uint64(fin)))
 	res.fam = map[string]interface{}{"start_counter": s, "goroutines": g, "requests_each": per,
-		"kind": []string{"QoS0 publishes, connected", "QoS1 publishes, all outstanding", "QoS0 publishes, never connected (ErrNotConnected after the identifier is taken)"}[mode],
+		"kind":               []string{"QoS0 publishes, connected", "QoS1 publishes, all outstanding", "QoS0 publishes, never connected (ErrNotConnected after the identifier is taken)"}[mode],
 		"counter_afterwards": fin, "overlap_proved_by_control_counter": res.contended,
 		"identifiers_sorted_as_runs(first,length)": runs[:c15Min(len(runs), 12)], "runs": len(runs)}
 	return res, nil
@@ -1077,16 +1081,16 @@ func runC15(cfg *runCfg) error {
 	type bulkSpec struct {
 		g, per, mode int
 	}
-	bulks := []bulkSpec{{2000, 1, 1}, {16, 600, 0}, {3000, 1, 1}, {16, 2000, 2}, {3000, 1, 1}, {64, 100, 0},
-		{3000, 1, 1}, {4, 3000, 2}, {3000, 1, 1}, {3000, 1, 1}}
+	bulks := []bulkSpec{{2000, 1, 1}, {16, 600, 0}, {3000, 1, 1}, {16, 1000, 2}, {3000, 1, 1}, {64, 100, 0},
+		{3000, 1, 1}, {4, 1500, 2}, {3000, 1, 1}, {3000, 1, 1}}
 	maxTry := 60
 	cycles := 1
 	switch cfg.tier {
 	case "thorough":
-		nSeq, nConc, maxLen = 2500, 500, 60
+		nSeq, nConc, maxLen = 2000, 400, 60
 		bulks = nil
 		for i := 0; i < 12; i++ {
-			bulks = append(bulks, bulkSpec{3000, 1, 1}, bulkSpec{16, 1500, 0}, bulkSpec{16, 3000, 2}, bulkSpec{4000, 1, 1})
+			bulks = append(bulks, bulkSpec{3000, 1, 1}, bulkSpec{16, 1000, 0}, bulkSpec{16, 1500, 2}, bulkSpec{4000, 1, 1})
 		}
 		maxTry = 400
 		cycles = 3
